@@ -47,6 +47,18 @@ def cells(ctx: Ctx, deeper: bool) -> List[Dict[str, Any]]:
             if deeper:
                 c = pick(R.choice(list(KINDS)))
                 C.append({"id": f"bin{op}:{a}:{b}:deep", "expr": f"(({la} {op} {lb}) {R.choice(['+', '*', '-'])} {c})", "family": "mod" if op == "%" else "binop", "kinds": (a, b), "op": op})
+    # grouping: a parenthesised RIGHT operand (and a left one) of every operator pair must keep its grouping
+    for op1, op2 in itertools.product(["+", "-", "*", "/", "%"], ["+", "-", "*", "/", "%"]):
+        for a, b, c in (("dmeth", "icount", "flit"), ("icount", "imeth", "ilit")):
+            la, lb, lc = pick(a), pick(b), ("3" if c == "ilit" else "2.5")
+            fam = "mod" if "%" in (op1, op2) else "binop"
+            if fam == "mod" and (a == "dmeth" or (op1, op2) not in (("%", "+"), ("%", "*"), ("+", "%"), ("*", "%"))):
+                continue  # '%' only between non-negative integers (floating / negative operands: known finding and ASSUME)
+            C.append({"id": f"grp:{op1}:{op2}:right:{a}", "expr": f"({la} {op1} ({lb} {op2} {lc}))", "family": fam, "kinds": (a, b), "op": op1 + op2})
+            C.append({"id": f"grp:{op1}:{op2}:left:{a}", "expr": f"(({la} {op1} {lb}) {op2} {lc})", "family": fam, "kinds": (a, b), "op": op1 + op2})
+    C.append({"id": "grp:neg_of_sum", "expr": "(-(j.pt() + j.eta()) * 2)", "family": "binop", "kinds": ("dmeth", "dmeth"), "op": "-+"})
+    C.append({"id": "grp:div_of_div", "expr": "(j.pt() / (j.hits().Count() / 2))", "family": "binop", "kinds": ("dmeth", "icount"), "op": "//"})
+    C.append({"id": "grp:pow_right_assoc", "expr": "(2 ** (3 ** 2) + j.nTrk())", "family": "binop", "kinds": ("ilit", "ilit"), "op": "**"})
     for op in ["+", "-", "not "]:
         for a in KINDS:
             C.append({"id": f"un{op.strip()}:{a}", "expr": f"({op}{pick(a)})", "family": "unary", "kinds": (a,), "op": op.strip()})
@@ -68,6 +80,11 @@ def cells(ctx: Ctx, deeper: bool) -> List[Dict[str, Any]]:
                           "floating_ok": " if " in body})
     for a, b in itertools.product(KINDS, KINDS):
         C.append({"id": f"if:{a}:{b}", "expr": f"({pick(a)} if j.pt() > 30.0 else {pick(b)})", "family": "cond", "kinds": (a, b), "op": "ifexp"})
+    # conditionals whose arms hold partial operations (First / index): each arm is evaluated under its own test only
+    for k, e in enumerate(["(j.tracks().First().pt() if j.tracks().Count() > 0 else -1.0)", "(j.trkPts().First() if j.trkPts().Count() > 0 else 0.5)",
+                           "(-1 if j.hits().Count() == 0 else j.hits().First())", "(j.hits()[1] if j.hits().Count() > 1 else 0)",
+                           "(j.tracks().First().nHits() if j.tracks().Count() > 1 else j.nTrk())", "((j.trkPts().First() if j.trkPts().Count() > 0 else 0.5) * 2 + 1)"]):
+        C.append({"id": f"if:partial_arm:{k}", "expr": e, "family": "cond", "kinds": ("partial", "lit"), "op": "ifexp"})
     return C
 
 
